@@ -255,9 +255,13 @@ func (c *Ctx) Unit(desc func() string) bool {
 	return true
 }
 
-// Sub records the case currently executing inside a unit (for hang/crash reports).
+// Sub records the case currently executing inside a unit (for hang/crash reports); the watchdog
+// allows every case its own CPU-time limit.
 func (c *Ctx) Sub(desc string) {
 	c.curDesc.Store(desc)
+	if c.curStart.Load() != 0 {
+		c.curStart.Store(cpuNanos() + 1) // a new case has begun: the watchdog's clock restarts
+	}
 	if c.progress != nil {
 		rec := fmt.Sprintf("%d\t%s", c.curUnit.Load(), desc)
 		if len(rec) > 4000 {
